@@ -98,7 +98,7 @@ func resegModelCase(c *Ctx, req string, tt *ttrack, oe *outExpanded) {
 }
 
 func fragSizes(t *ffTrack, segIdx int, dur uint32, withTrex bool) ([]int, error) {
-	f, err := mp4.DecodeFile(bytes.NewReader(append(cp(t.init), t.segs[segIdx]...)))
+	f, err := mp4.DecodeFile(bytes.NewReader(append(cp(t.init), t.segAt(segIdx, uint64(len(t.init)))...)))
 	if err != nil || len(f.Segments) != 1 {
 		return nil, fmt.Errorf("decode")
 	}
@@ -230,6 +230,8 @@ func execSegModel(op string, key string) string {
 	var ans string
 	p := safe(func() {
 		switch {
+		case op == "seg.pos" && len(f) > 2 && f[0] == "readpacked":
+			ans = execReadPacked(f[2:], atoi(f[1]))
 		case op == "seg.reseg" && len(f) > 2 && f[0] == "reseg":
 			ticks, _ := strconv.ParseUint(f[1], 10, 64)
 			input, _, err := resegInputFromSpec(f[2:])
